@@ -280,6 +280,7 @@ _dispatch_group_wake(dispatch_group_t dg, uint64_t dg_state, bool needs_release)
 void
 dispatch_group_leave(dispatch_group_t dg)
 {
+	DISPATCH_VERIF_PROBE(22);
 	// The value is incremented on a 64bits wide atomic so that the carry for
 	// the -1 -> 0 transition increments the generation atomically.
 	uint64_t new_state, old_state = os_atomic_add_orig2o(dg, dg_state,
@@ -287,7 +288,6 @@ dispatch_group_leave(dispatch_group_t dg)
 	uint32_t old_value = (uint32_t)(old_state & DISPATCH_GROUP_VALUE_MASK);
 
 	if (unlikely(old_value == DISPATCH_GROUP_VALUE_1)) {
-		DISPATCH_VERIF_PROBE(22);
 		old_state += DISPATCH_GROUP_VALUE_INTERVAL;
 		do {
 			new_state = old_state;
@@ -311,6 +311,7 @@ dispatch_group_leave(dispatch_group_t dg)
 		DISPATCH_CLIENT_CRASH((uintptr_t)old_value,
 				"Unbalanced call to dispatch_group_leave()");
 	}
+	DISPATCH_VERIF_PROBE(23);
 }
 
 void
@@ -338,6 +339,7 @@ _dispatch_group_notify(dispatch_group_t dg, dispatch_queue_t dq,
 	uint64_t old_state, new_state;
 	dispatch_continuation_t prev;
 
+	DISPATCH_VERIF_PROBE(24);
 	dsn->dc_data = dq;
 	_dispatch_retain(dq);
 
@@ -349,12 +351,12 @@ _dispatch_group_notify(dispatch_group_t dg, dispatch_queue_t dq,
 			new_state = old_state | DISPATCH_GROUP_HAS_NOTIFS;
 			if ((uint32_t)old_state == 0) {
 				os_atomic_rmw_loop_give_up({
-					DISPATCH_VERIF_PROBE(24);
 					return _dispatch_group_wake(dg, new_state, false);
 				});
 			}
 		});
 	}
+	DISPATCH_VERIF_PROBE(25);
 }
 
 DISPATCH_NOINLINE
